@@ -15,6 +15,7 @@ type Options struct {
 	// history: their versions are not compared and the status of a delete is
 	// recorded but not judged (C13 carve-outs).
 	Colliding map[string]bool
+	Groups    [][]string // same-hash groups (for violation signatures)
 	Replay    interface{}
 	// AfterOp, when set, runs after every executed op (used by C03/C18 monitors).
 	AfterOp func(i int, op Op, r *Runner)
@@ -34,6 +35,11 @@ type Runner struct {
 	tombUncertain map[string]bool  // tombstone that a tree rebuild may have dropped
 	phase         map[string]string
 	everWritten   map[string]bool
+	lastWriteOp   map[string]int    // op index of the key's last accepted write/delete
+	lastKind      map[string]string // "set" | "del"
+	groupOf       map[string]int
+	valueOwners   map[uint64]map[string]bool // fingerprint of every value ever accepted -> keys it was written to
+	anomalous     map[string]bool            // colliding keys that already showed an anomaly (later ones are follow-ups)
 	Trace         []string
 	failed        bool
 	nops          int
@@ -41,8 +47,92 @@ type Runner struct {
 }
 
 func NewRunner(s SUT, m *ref.RefMap, rep Reporter, caseID string, opt Options) *Runner {
-	return &Runner{S: s, M: m, Rep: rep, Case: caseID, Opt: opt, verUncertain: map[string]bool{}, lastDataVer: map[string]int32{},
-		tombUncertain: map[string]bool{}, phase: map[string]string{}, everWritten: map[string]bool{}}
+	r := &Runner{S: s, M: m, Rep: rep, Case: caseID, Opt: opt, verUncertain: map[string]bool{}, lastDataVer: map[string]int32{},
+		tombUncertain: map[string]bool{}, phase: map[string]string{}, everWritten: map[string]bool{}, lastWriteOp: map[string]int{}, lastKind: map[string]string{}, groupOf: map[string]int{}, valueOwners: map[uint64]map[string]bool{}, anomalous: map[string]bool{}}
+	for gi, g := range opt.Groups {
+		for _, k := range g {
+			r.groupOf[k] = gi + 1
+		}
+	}
+	return r
+}
+
+func fingerprint(b []byte) uint64 {
+	return uint64(ref.CRC32(b))<<32 | uint64(ref.Fnv1aSigned(b)) ^ uint64(len(b))<<16
+}
+
+func (r *Runner) remember(key string, val []byte) {
+	fp := fingerprint(val)
+	if r.valueOwners[fp] == nil {
+		r.valueOwners[fp] = map[string]bool{}
+	}
+	r.valueOwners[fp][key] = true
+}
+
+// classify tells whose bytes a wrong read returned: an older value of the same
+// key, a value written to another key (of the same hash group or not), or bytes
+// that were never written at all.
+func (r *Runner) classify(key string, got []byte) string {
+	owners := r.valueOwners[fingerprint(got)]
+	switch {
+	case len(owners) == 0:
+		return "unknown-bytes"
+	case owners[key]:
+		return "stale-own"
+	}
+	gi := r.groupOf[key]
+	for k := range owners {
+		if gi != 0 && r.groupOf[k] == gi {
+			return "foreign-sibling"
+		}
+	}
+	return "foreign-other-key"
+}
+
+// relation describes, for a colliding key, what happened to the other members
+// of its same-hash group since the key's own last accepted write.
+func (r *Runner) relation(key string) string {
+	gi := r.groupOf[key]
+	if gi == 0 {
+		return ""
+	}
+	mine, ok := r.lastWriteOp[key]
+	if !ok {
+		mine = -1
+	}
+	rel := "sib-none"
+	for _, k := range r.Opt.Groups[gi-1] {
+		if k == key {
+			continue
+		}
+		if op, ok := r.lastWriteOp[k]; ok && op > mine {
+			if r.lastKind[k] == "del" {
+				return "sib-del-later"
+			}
+			rel = "sib-set-later"
+		}
+	}
+	return rel
+}
+
+// softViolate reports an anomaly of a colliding key and lets the history go on
+// (the model is re-synchronised with the observation by the caller).
+func (r *Runner) softViolate(key, sig, format string, a ...interface{}) {
+	if r.anomalous[key] {
+		// the key's visibility already diverged once; what follows is a
+		// consequence of that (the store may show or hide such a key again
+		// without any write), reported under one follow-up class
+		sig = "follow-up-anomaly:colliding"
+	}
+	r.anomalous[key] = true
+	detail := fmt.Sprintf(format, a...)
+	tr := r.Trace
+	if len(tr) > 40 {
+		tr = tr[len(tr)-40:]
+	}
+	detail += "\n-- last operations --\n" + strings.Join(tr, "\n")
+	r.Rep.Violate(r.Case, r.Opt.Prefix+":"+sig, detail, r.Opt.Replay)
+	r.tracef("!! %s (colliding key, model re-synchronised with the observation)", sig)
 }
 
 func (r *Runner) Failed() bool { return r.failed }
@@ -131,6 +221,8 @@ func (r *Runner) step(i int, op Op) {
 		}
 		switch {
 		case exp.Accepted:
+			r.remember(op.Key, val)
+			r.lastWriteOp[op.Key], r.lastKind[op.Key] = i, "set"
 			r.everWritten[op.Key] = true
 			r.verUncertain[op.Key] = false
 			r.tombUncertain[op.Key] = false
@@ -151,6 +243,7 @@ func (r *Runner) step(i int, op Op) {
 		}
 		r.checkKey(op.Key, "after-set")
 	case "del":
+		before := r.M.M[op.Key]
 		exp := r.M.Delete(op.Key)
 		deleted, err := r.S.Delete(op.Key)
 		r.tracef("delete %q -> deleted=%v err=%v (model %v)", short(op.Key), deleted, err, exp)
@@ -158,21 +251,30 @@ func (r *Runner) step(i int, op Op) {
 			r.violate("delete-error", "delete %q returned error: %v", op.Key, err)
 			return
 		}
-		if r.Opt.Colliding[op.Key] {
-			// status not judged; if the store accepted a delete the model did not
-			// expect (or the reverse) follow the store for liveness: the key must
-			// be a miss afterwards either way
-			if deleted != exp {
-				r.Rep.Event("del.colliding_status_adopted", 1)
-				if deleted {
-					r.M.M[op.Key] = &ref.Entry{Ver: -1}
+		if r.Opt.Colliding[op.Key] && deleted != exp {
+			// the reply is recorded as an anomaly of its own class and the model
+			// follows the store, so that what is judged afterwards (liveness and
+			// value of every member) is judged against the reply the client got
+			if deleted {
+				r.softViolate(op.Key, "delete-accepted-for-absent-key:colliding:"+r.relation(op.Key), "delete %q returned DELETED although this key is not live in the reference (%s)", op.Key, descr(before))
+				r.M.M[op.Key] = &ref.Entry{Ver: -1}
+				r.M.LastWrite[op.Key] = ref.Entry{Ver: -1}
+				exp = true
+			} else {
+				r.softViolate(op.Key, "delete-refused-for-live-key:colliding:"+r.relation(op.Key), "delete %q returned NOT_FOUND although the key is live in the reference (%s)", op.Key, descr(before))
+				if before != nil {
+					cp := *before
+					r.M.M[op.Key] = &cp
+					r.M.LastWrite[op.Key] = cp
 				}
+				exp = false
 			}
 		} else if deleted != exp {
 			r.violate("delete-status", "delete %q: deleted=%v, reference says %v", op.Key, deleted, exp)
 			return
 		}
 		if exp {
+			r.lastWriteOp[op.Key], r.lastKind[op.Key] = i, "del"
 			r.Rep.Event("del.deleted", 1)
 			r.verUncertain[op.Key] = false
 			r.lastDataVer[op.Key] = r.M.M[op.Key].Ver
@@ -197,11 +299,27 @@ func (r *Runner) step(i int, op Op) {
 			return
 		}
 		if got != expVal {
+			if r.Opt.Colliding[op.Key] {
+				r.softViolate(op.Key, "incr-value:colliding:"+r.relation(op.Key), "incr %q by %d returned %d, reference says %d (key was %s)", op.Key, op.D, got, expVal, cls)
+				// re-synchronise with what the store now serves
+				it, _ := r.S.Get(op.Key)
+				if it != nil {
+					r.M.M[op.Key] = &ref.Entry{Ver: 1, Value: it.Val, Flag: it.Flag}
+					if m, _ := r.S.Meta(op.Key); m != nil && m.Ver > 0 {
+						r.M.M[op.Key].Ver = m.Ver
+					}
+				} else {
+					delete(r.M.M, op.Key)
+				}
+				return
+			}
 			r.violate("incr-value", "incr %q by %d returned %d, reference says %d (key was %s)", op.Key, op.D, got, expVal, cls)
 			return
 		}
 		if wrote {
 			cls += "-written"
+			r.remember(op.Key, r.M.M[op.Key].Value)
+			r.lastWriteOp[op.Key], r.lastKind[op.Key] = i, "set"
 			r.everWritten[op.Key] = true
 			r.verUncertain[op.Key] = false
 			r.tombUncertain[op.Key] = false
@@ -233,6 +351,10 @@ func (r *Runner) step(i int, op Op) {
 		}
 		want := map[string]bool{}
 		for _, k := range op.Keys {
+			if r.Opt.Colliding[k] {
+				want[k] = true // judged by the single-key checks (soft, with re-synchronisation)
+				continue
+			}
 			if v, f, ok := r.M.Get(k); ok {
 				want[k] = true
 				it := got[k]
@@ -415,23 +537,56 @@ func (r *Runner) checkKey(key, why string) {
 	if ph == "" {
 		ph = "none"
 	}
-	it, err := r.S.Get(key)
+	var it *Item
+	var m *Meta
+	var err error
+	resync := false
+	coll := r.Opt.Colliding[key]
+	// bad reports a mismatch. For a colliding key it is recorded under its own
+	// signature class and the model is re-synchronised with what the store
+	// serves, so that the rest of the history keeps being judged.
+	bad := func(sig, format string, a ...interface{}) {
+		if coll {
+			resync = true
+			r.softViolate(key, strings.Replace(sig, ":"+ph, "", 1)+":"+ph+":colliding:"+r.relation(key), format, a...)
+			return
+		}
+		r.violate(sig, format, a...)
+	}
+	defer func() {
+		if !resync {
+			return
+		}
+		switch {
+		case it != nil:
+			v := int32(1)
+			if m != nil && m.Ver > 0 {
+				v = m.Ver
+			}
+			r.M.M[key] = &ref.Entry{Ver: v, Value: it.Val, Flag: it.Flag}
+		case m != nil && m.Ver < 0:
+			r.M.M[key] = &ref.Entry{Ver: m.Ver}
+		case err == nil:
+			delete(r.M.M, key)
+		}
+	}()
+	it, err = r.S.Get(key)
 	if err != nil {
-		r.violate("get-error:"+ph, "[%s] get %q returned error: %v (reference: %s)", why, key, err, descr(e))
+		bad("get-error:"+ph, "[%s] get %q returned error: %v (reference: %s)", why, key, err, descr(e))
 		return
 	}
 	live := e != nil && e.Ver > 0
 	if live {
 		if it == nil {
-			r.violate("get-miss-live:"+ph, "[%s] get %q is a miss, reference has %s", why, key, descr(e))
+			bad("get-miss-live:"+ph, "[%s] get %q is a miss, reference has %s", why, key, descr(e))
 			return
 		}
 		if !bytes.Equal(it.Val, e.Value) {
-			r.violate("get-value:"+ph, "[%s] get %q returned other bytes than the last accepted write: %s; got %s..., reference %s", why, key, ref.DiffBytes(it.Val, e.Value), preview(it.Val), descr(e))
+			bad("get-value-"+r.classify(key, it.Val)+":"+ph, "[%s] get %q returned other bytes than the last accepted write (%s): %s; got %s..., reference %s", why, key, r.classify(key, it.Val), ref.DiffBytes(it.Val, e.Value), preview(it.Val), descr(e))
 			return
 		}
 		if it.Flag != e.Flag {
-			r.violate("get-flags:"+ph, "[%s] get %q returned flags %#x, last accepted write had %#x", why, key, it.Flag, e.Flag)
+			bad("get-flags:"+ph, "[%s] get %q returned flags %#x, last accepted write had %#x", why, key, it.Flag, e.Flag)
 			return
 		}
 	} else if it != nil {
@@ -439,12 +594,12 @@ func (r *Runner) checkKey(key, why string) {
 		if e == nil {
 			sig = "get-hit-never-written:"
 		}
-		r.violate(sig+ph, "[%s] get %q returned a value (%d bytes, %s...) but the reference says %s", why, key, len(it.Val), preview(it.Val), descr(e))
+		bad(strings.TrimSuffix(sig, ":")+"-"+r.classify(key, it.Val)+":"+ph, "[%s] get %q returned a value (%d bytes, %s..., %s) but the reference says %s", why, key, len(it.Val), preview(it.Val), r.classify(key, it.Val), descr(e))
 		return
 	}
-	m, err := r.S.Meta(key)
+	m, err = r.S.Meta(key)
 	if err != nil {
-		r.violate("meta-error:"+ph, "[%s] meta-get %q returned error: %v", why, key, err)
+		bad("meta-error:"+ph, "[%s] meta-get %q returned error: %v", why, key, err)
 		return
 	}
 	res, comp := "absent", false
@@ -455,11 +610,11 @@ func (r *Runner) checkKey(key, why string) {
 	switch {
 	case live:
 		if m == nil {
-			r.violate("meta-miss-live:"+ph, "[%s] meta-get %q finds nothing, reference has %s", why, key, descr(e))
+			bad("meta-miss-live:"+ph, "[%s] meta-get %q finds nothing, reference has %s", why, key, descr(e))
 			return
 		}
 		if m.Ver <= 0 {
-			r.violate("meta-ver-sign:"+ph, "[%s] meta-get %q says version %d for a live key (%s)", why, key, m.Ver, descr(e))
+			bad("meta-ver-sign:"+ph, "[%s] meta-get %q says version %d for a live key (%s)", why, key, m.Ver, descr(e))
 			return
 		}
 		if !colliding && m.Ver != e.Ver {
@@ -469,16 +624,16 @@ func (r *Runner) checkKey(key, why string) {
 				r.verUncertain[key] = false
 				r.Rep.Event("adopt.treeonly_version_reverted", 1)
 			} else {
-				r.violate("meta-version:"+ph, "[%s] meta-get %q says version %d, reference says %d (%s)", why, key, m.Ver, e.Ver, descr(e))
+				bad("meta-version:"+ph, "[%s] meta-get %q says version %d, reference says %d (%s)", why, key, m.Ver, e.Ver, descr(e))
 				return
 			}
 		}
 		if wv := ref.ValueHash(e.Value); m.Vhash != wv || m.Flag != e.Flag || m.Len != len(e.Value) {
-			r.violate("meta-fields:"+ph, "[%s] meta-get %q says vhash %d flag %#x len %d; reference vhash %d flag %#x len %d", why, key, m.Vhash, m.Flag, m.Len, wv, e.Flag, len(e.Value))
+			bad("meta-fields:"+ph, "[%s] meta-get %q says vhash %d flag %#x len %d; reference vhash %d flag %#x len %d", why, key, m.Vhash, m.Flag, m.Len, wv, e.Flag, len(e.Value))
 			return
 		}
 		if m.Offset%256 != 0 {
-			r.violate("meta-align", "[%s] position of %q is (%d,%d): not 256-aligned", why, key, m.Chunk, m.Offset)
+			bad("meta-align", "[%s] position of %q is (%d,%d): not 256-aligned", why, key, m.Chunk, m.Offset)
 			return
 		}
 		c := "plain"
@@ -495,12 +650,12 @@ func (r *Runner) checkKey(key, why string) {
 				r.tombUncertain[key] = false
 				r.Rep.Event("adopt.tombstone_dropped", 1)
 			} else if !colliding {
-				r.violate("meta-miss-tombstone:"+ph, "[%s] meta-get %q finds nothing, reference has %s and no restart happened since", why, key, descr(e))
+				bad("meta-miss-tombstone:"+ph, "[%s] meta-get %q finds nothing, reference has %s and no restart happened since", why, key, descr(e))
 				return
 			}
 		} else {
 			if m.Ver >= 0 {
-				r.violate("meta-live-deleted:"+ph, "[%s] meta-get %q says version %d for a deleted key (%s)", why, key, m.Ver, descr(e))
+				bad("meta-live-deleted:"+ph, "[%s] meta-get %q says version %d for a deleted key (%s)", why, key, m.Ver, descr(e))
 				return
 			}
 			if !colliding && m.Ver != e.Ver {
@@ -508,7 +663,7 @@ func (r *Runner) checkKey(key, why string) {
 					e.Ver = m.Ver
 					r.Rep.Event("adopt.tombstone_version", 1)
 				} else {
-					r.violate("meta-tomb-version:"+ph, "[%s] meta-get %q says version %d, reference says %d", why, key, m.Ver, e.Ver)
+					bad("meta-tomb-version:"+ph, "[%s] meta-get %q says version %d, reference says %d", why, key, m.Ver, e.Ver)
 					return
 				}
 			}
@@ -522,7 +677,7 @@ func (r *Runner) checkKey(key, why string) {
 				return
 			}
 			if m.Ver > 0 {
-				r.violate("meta-live-unknown:"+ph, "[%s] meta-get %q says live version %d but the reference has no such key", why, key, m.Ver)
+				bad("meta-live-unknown:"+ph, "[%s] meta-get %q says live version %d but the reference has no such key", why, key, m.Ver)
 				return
 			}
 			// a tombstone the model believed dropped is still there: adopt it
@@ -530,7 +685,7 @@ func (r *Runner) checkKey(key, why string) {
 				r.M.M[key] = &ref.Entry{Ver: m.Ver}
 				r.Rep.Event("adopt.tombstone_reappeared_in_meta", 1)
 			} else {
-				r.violate("meta-tomb-unknown:"+ph, "[%s] meta-get %q shows a tombstone (version %d) for a key never written", why, key, m.Ver)
+				bad("meta-tomb-unknown:"+ph, "[%s] meta-get %q shows a tombstone (version %d) for a key never written", why, key, m.Ver)
 			}
 		}
 	}
